@@ -474,6 +474,22 @@ fn main() {
             // (a str8 / str16 length byte may itself be printable and then looks like the first byte of
             // the run: also try the run without its first one or two bytes)
             let runs: Vec<(usize, usize)> = runs.into_iter().flat_map(|(st, en)| (0..3usize).filter(move |k| en - st >= 4 + k).map(move |k| (st + k, en))).collect();
+            // a string shortened to the EMPTY string (still a well-formed buffer: strings are
+            // self-delimiting): fixstr and str8 headers directly in front of a run
+            for &(st, en) in runs.iter() {
+                let n = en - st;
+                let cut: Option<(usize, Vec<u8>)> = if st >= 1 && buf[st - 1] == 0xa0 | (n as u8) && n <= 31 {
+                    Some((st - 1, vec![0xa0]))
+                } else if st >= 2 && buf[st - 2] == 0xd9 && buf[st - 1] as usize == n {
+                    Some((st - 2, vec![0xa0]))
+                } else { None };
+                if let Some((at, hdr)) = cut {
+                    let mut b = buf[..at].to_vec();
+                    b.extend_from_slice(&hdr);
+                    b.extend_from_slice(&buf[en..]);
+                    attempt(&mut cx, &mut sm, &mut tally, &b, "string replaced by the empty string");
+                }
+            }
             for (st, en) in runs {
                 let n = en - st;
                 for head in ["{\"selector\":[]}", "{\"selector\":[{}]}", "{\"selector\":[],\"action\":null}", "{}", "[]", "null", "", "+js(", "\\", "\"", ",,,,", "{{1}}", "*", "||", "#@#", ":style(", "\u{0}"] {
